@@ -975,7 +975,10 @@ fn step(sink: &Sink, s: &St, op: Op, count_depth: bool) -> Option<St> {
       fp != s.fp,
       invariants(&abs).map(|(c, _)| c)
     );
-    let key = if !classes.contains(class(&flag)) {
+    let key = if pred.ambiguous {
+      // the fragment denotes several ids: the outcome must be the one for (at least) one of them
+      format!("CoreDocument::{name}|fragment-denotes-several-ids|outcome-fits-none-of-the-denoted-ids")
+    } else if !classes.contains(class(&flag)) {
       match pred.accept_key {
         Some(k) if !is_refusal(&flag) => k.to_string(),
         _ => format!("CoreDocument::{name}|result|expected-{}-got-{}", classes.iter().cloned().collect::<Vec<_>>().join("/"), class(&flag)),
@@ -1179,15 +1182,6 @@ fn generate(ctx: &Ctx) {
   let all_scopes = [0u8, 1, 2, 3, 4, 5];
   let all_rels = [1u8, 2, 3, 4, 5];
   let two = [0u8, 1, 2]; // VerificationMethod, authentication, assertionMethod
-  if let Ok(pr) = std::env::var("C04_PROBE") {
-    // PROBE-BEGIN (development only)
-    let nums = |k: &str| -> Vec<u8> { pr.split(';').find_map(|kv| kv.strip_prefix(k)).map(|v| v.split(',').filter_map(|x| x.parse().ok()).collect()).unwrap_or_default() };
-    let t = std::time::Instant::now();
-    run_part(ctx, "probe", 9, universe(&nums("inits="), &nums("mids="), &[], &nums("scopes="), &nums("rels="), &nums("sids="), false), None);
-    eprintln!("probe wall {:.1}s", t.elapsed().as_secs_f64());
-    return;
-    // PROBE-END
-  }
   if ctx.quick() {
     // (A) 3 method ids x 2 relationships x 2 services to closure; the five plain start documents; one body with a
     //     custom property (its successors are cut while the serde defect of such methods exists)
